@@ -117,9 +117,11 @@ def run(ctx):
     rep.assumptions = ['write-mode newline None / \'\' / \'\\n\' produce identical bytes on POSIX (platform note)',
                        'TextIOWrapper.detach() flushes']
     rep.trusted = ['skeleton extractor (effects.py)']
-    r161(ctx, rep)
-    r162(ctx, rep)
-    r164(ctx, rep)
+    ctx.attempt(r161, ctx, rep)
+    ctx.attempt(r162, ctx, rep)
+    ctx.attempt(r164, ctx, rep)
+    rep.rule('R16.5', 'a pass through a tee view does not change the view: what the second pass (header(), look(), the real pass) writes is what the first wrote (C01 R1.3 for the Tee*View classes)')
+    ctx.attempt(r165, ctx, rep)
 
 
 # ------------------------------------------------------------------------ R16.1
@@ -322,6 +324,10 @@ def r162(ctx, rep):
     for wfq, callee in WRAPPERS:
         fn = ctx.project.need_fn(wfq)
         calls = [n for n in own_nodes(fn.node) if isinstance(n, ast.Call) and norm(n.func) == callee]
+        if len(calls) != 1 and fn.kwarg:
+            # the hop may go straight to the implementation: the one call that gets **csvargs
+            calls = [n for n in own_nodes(fn.node) if isinstance(n, ast.Call) and
+                     any(k.arg is None and isinstance(k.value, ast.Name) and k.value.id == fn.kwarg for k in n.keywords)]
         if len(calls) != 1:
             rep.violated('R16.2', fn, callee + '(...)', 'expected exactly one delegation to %s' % callee, fn.node)
             continue
@@ -340,13 +346,20 @@ def r162(ctx, rep):
                                  '%s defaults %s=%s but %s defaults it to %s: with the argument omitted the tee writes '
                                  'something else' % (fa.name, p, da, fb.name, db), fa.node)
         # csv dialect defaults
-        sa = [norm(n) for n in own_nodes(fa.node) if isinstance(n, ast.Call) and norm(n.func).endswith('.setdefault')]
-        sb = [norm(n) for n in own_nodes(fb.node) if isinstance(n, ast.Call) and norm(n.func).endswith('.setdefault')]
-        if sa or sb:
-            if sa == sb:
-                rep.held('R16.2', fa, 'dialect default', ', '.join(sa), fa.node)
+        if fa.module.name == 'petl.io.csv' and fa.kwarg and fb.kwarg:
+            # the dialect that reaches the implementation when the caller gave none / gave one, whatever the spelling
+            from .c15 import _dialect_flow, _NoFlow
+            try:
+                sa = [sorted({d for d, _ in _dialect_flow(ctx, fa.module, fa, st0)}) for st0 in ('ABSENT', 'USER')]
+                sb = [sorted({d for d, _ in _dialect_flow(ctx, fb.module, fb, st0)}) for st0 in ('ABSENT', 'USER')]
+            except _NoFlow as e:
+                rep.undecided('R16.2', fa, 'dialect default', str(e), fa.node)
+                continue
+            if sa == sb and sa[0]:
+                rep.held('R16.2', fa, 'dialect default', 'dialect %s when omitted, the caller\'s otherwise' % ', '.join(sa[0]), fa.node)
             else:
-                rep.violated('R16.2', fa, 'dialect default', '%s sets %s, %s sets %s' % (fa.name, sa, fb.name, sb), fa.node)
+                rep.violated('R16.2', fa, 'dialect default', '%s reaches its implementation with dialect %s (omitted) / %s (given), '
+                             '%s with %s / %s' % (fa.name, sa[0], sa[1], fb.name, sb[0], sb[1]), fa.node)
 
 
 def _all_forwarded(rep, fn, call):
@@ -358,8 +371,26 @@ def _all_forwarded(rep, fn, call):
         else:
             passed[k.arg] = k.value
     pos = [a for a in call.args if isinstance(a, ast.Name)]
+    # locals bound once: `sink = write_source_from_arg(source, mode)` carries `source`
+    single = {}
+    for n in own_nodes(fn.node):
+        if isinstance(n, ast.Assign) and len(n.targets) == 1 and isinstance(n.targets[0], ast.Name):
+            single.setdefault(n.targets[0].id, []).append(n.value)
+
+    def carries(e, p, depth=0):
+        if isinstance(e, ast.Name):
+            if e.id == p:
+                return True
+            vals = single.get(e.id, [])
+            if len(vals) == 1 and depth < 3 and e.id not in fn.params:
+                return carries(vals[0], p, depth + 1)
+            return False
+        if isinstance(e, ast.Call) and depth < 3:
+            # a resolver applied to the argument (write_source_from_arg(source, ...)) hands the argument on
+            return any(carries(a, p, depth + 1) for a in e.args[:1])
+        return False
     for p in fn.params:
-        ok = (p in passed and isinstance(passed[p], ast.Name) and passed[p].id == p) or any(a.id == p for a in pos)
+        ok = (p in passed and carries(passed[p], p)) or any(a.id == p for a in pos)
         c = '%s(..., %s=%s)' % (norm(call.func), p, p)
         if ok:
             rep.held('R16.2', fn, c, 'forwarded', call)
@@ -386,3 +417,26 @@ def r164(ctx, rep):
         rep.violated('R16.4', fn, 'completeness == room',
                      cex + ': a full pass with a full memo marks it complete and later passes lose the remaining rows',
                      fn.node)
+
+
+# ------------------------------------------------------------------------ R16.5
+def r165(ctx, rep):
+    from . import c01
+    from ..report import Report
+    sub = Report('C01', ctx.tier, ctx.root)
+    saved = ctx.report
+    ctx.report = sub
+    n = 0
+    try:
+        found = set()
+        for v in ctx.views.real_views():
+            if v.cls.name.startswith('Tee') and v.cls.module.name.startswith('petl.io'):
+                n += 1
+                c01.r13(ctx, sub, v, found)
+    finally:
+        ctx.report = saved
+    for o in sub.obligations:
+        rep.add('R16.5', (o.module, o.qualname), o.construct, o.status, o.message, o.lineno, o.detail)
+    if n < 4:
+        raise AnalysisError('anchor vanished: only %d Tee*View classes' % n)
+    rep.held('R16.5', ('petl.io', 'Tee*View'), 'view state', '%d tee views: no iterator-reachable code writes view state' % n, None)
